@@ -344,6 +344,48 @@ def run(ctx):
                   'is an offset from the source and the 1D response / '
                   f'extraction point must use {R}.coordinates_abs({S}) / '
                   f'{R}.center_abs({S})', ctx.where(mp, raw[0] if raw else fn_))
+    # the source moment: the 1D modeller applies `strength` only if > 0 and
+    # has no notion of the length of a point-format dipole, so it is called
+    # for a unit source and the response multiplied by strength x length
+    # (x s mu0 for the current loop that represents a magnetic dipole)
+    sdict = [d for d in ast.walk(ly) if isinstance(d, ast.Dict) and any(
+        isinstance(k, ast.Constant) and k.value == 'msrc' for k in d.keys)]
+    ctx.anchor(len(sdict) == 1, 'source entries of the empymod input')
+    kvs = {k.value: v for k, v in zip(sdict[0].keys, sdict[0].values)
+           if isinstance(k, ast.Constant)}
+    unit_src = 'strength' in kvs and isinstance(kvs['strength'], ast.Constant) \
+        and kvs['strength'].value == 0
+    mom_defs = [n for n in ast.walk(ly) if isinstance(n, ast.Assign) and
+                isinstance(n.targets[0], ast.Name) and
+                f'{sname}.strength' in ast.unparse(n.value)]
+    with_len = any('.length' in ast.unparse(n.value) for n in mom_defs) and \
+        any('norm' in ast.unparse(n.value) for n in mom_defs)
+    ef_ = mp.func('_empymod_fwd')
+    applied = bool(find('_m_ = _i_.pop(\'moment\', __)', ef_)) and any(
+        isinstance(r.value, ast.BinOp) and isinstance(r.value.op, ast.Mult)
+        and 'bipole(' in ast.unparse(r.value)
+        for r in ast.walk(ef_) if isinstance(r, ast.Return))
+    handed = any(isinstance(k, ast.Constant) and k.value == 'moment'
+                 for d in ast.walk(ly) if isinstance(d, ast.Dict)
+                 for k in d.keys)
+    ctx.check('C19.L3.moment', 'layered: source moment = strength x length '
+              'applied to the unit response', unit_src and with_len and
+              applied and handed,
+              'the strength is handed to the 1D modeller as it is (ignored '
+              'unless > 0) and the length of a point-format dipole is not '
+              'used: the response of a dipole (x, y, z, azm, dip) with '
+              'length L is too small by 1/L, a strength <= 0 gives the unit '
+              'response', ctx.where(mp, sdict[0]),
+              sample={'strength_entry': ast.unparse(kvs.get(
+                  'strength', ast.Constant(None)))})
+    src_ok_fmt = 'src' in kvs and ast.unparse(kvs['src']) != \
+        f'{sname}.coordinates'
+    ctx.check('C19.L3.moment', 'layered: source coordinates in a format the '
+              '1D modeller accepts', src_ok_fmt,
+              f'`{sname}.coordinates` is handed over as stored: the '
+              'documented two-electrode format [[x1,y1,z1],[x2,y2,z2]] is a '
+              '(2, 3) array, which the modeller rejects',
+              ctx.where(mp, sdict[0]))
     pair_ok = False
     for d in ast.walk(ly):
         if isinstance(d, ast.Dict):
